@@ -65,6 +65,8 @@ HOSTILE_SIGS = [
     # end of the data rather than invent values)
     'ah', 'a(h)', 'aah', 'a(hh)', 'ay', 'au', 'as', 'av', 'ad', 'a{sv}', 'a(ii)', 'ab', 'ag', 'ao',
     'a(yh)', 'aa{sh}',
+    # many small containers followed by one illegal / unbalanced character
+    '(i)' * 28 + '!', '(i)' * 40 + ')', 'a{sv}' * 20 + '(', '(ii)' * 30 + 'z', 'ai' * 60 + '}', '((i))' * 25 + '(',
 ]
 
 
